@@ -1,6 +1,7 @@
 CLAIMED['C12'] = dict(
-	text='Ten Coq theorems (Props/C12.v, closed under the global context) about a store-protocol model of '
-	     'src/gambit/sigs/hdf5.py (Model/Store.v: the attribute / create_dataset / slice-write calls of HDF5Signatures.create, '
+	text='Eleven Coq theorems (Props/C12.v, closed under the global context) about a store-protocol model of '
+	     'src/gambit/sigs/hdf5.py (Model/Store.v: the attribute / create_dataset / slice-write calls of HDF5Signatures.create in the order of the '
+	     'code repaired for C19 -- the format marker is written LAST; the order as found, marker first, is create_v0 and round-trips identically: C12_roundtrip_v0 --, '
 	     'the reader HDF5Signatures.__init__, load_signatures_hdf5): for EVERY collection with k >= 1, ACGT prefix, any of the 8 '
 	     'integer types, any list of signatures (empty ones, all empty), int or str ids and any metadata h5py can store, and for '
 	     'BOTH write paths, the write succeeds and the file loads as exactly the written parameters, ids, metadata (None <-> Empty), '
